@@ -804,7 +804,7 @@ func TestVerifC15(t *testing.T) {
 		races = append(races, lr)
 	}
 	// ... and that second node then starts the same creation with other content and dies part-way
-	for k := 0; k < 8; k++ {
+	for k := 0; k < 11; k++ {
 		races = append(races, c15Case{Kind: "race", Last: ins1, OtherProg: []c15Change{load, ins1}, OtherCrash: true, OtherCrashAt: k, Bound: 1})
 	}
 	for i, rcase := range races {
